@@ -799,8 +799,34 @@ def check_C04(ctx):
                  CONT_DEPS | {"Props/C04.v", "Term.v", "TermProofs.v"})
 
 
+C17_WITNESSES = [
+    ("late_successor_after_removed_predecessor.txt", "late-successor-never-displayed",
+     "a bar created to queue after a bar that has already left is never displayed and Wait never returns "
+     "(Props/C17.v C17_late_successor_never_displayed / C17_late_successor_refuted)"),
+    ("second_successor_same_predecessor.txt", "second-successor-dropped",
+     "a second bar queued after the same predecessor replaces the first in queueBars; the first is never displayed and "
+     "Wait never returns (Props/C17.v C17_second_successor_overwrites)"),
+]
+
+
 def c17_directed(ctx):
-    pass
+    """replay the D7 witnesses (the region the generator stays out of) against the code: each one that still
+    fails is reported under its own signature, which known_findings.json lists"""
+    if ctx.replay:
+        return
+    for name, sig, what in C17_WITNESSES:
+        sc = os.path.join(VERIF, "corpus", "C17_directed", name)
+        run = ctx.run_family("frames", 0, extra=sc, tag=".d7." + name, model=False, env={"MPBH_HANG_MS": "4000"}, timeout=120)
+        ctx.cov["evaluations"] += 1
+        hung = run["rc"] != 0 and re.search(r"hang: (wait|livelock)", run["log"]) is not None
+        if hung:
+            ctx.add_violation(what + "; the harness reports: " + run["log"].strip()[-200:], sig,
+                              {"family": "frames", "script": read_lines(sc), "witness": name})
+        elif run["rc"] != 0:
+            ctx.add_violation("directed witness %s failed differently: %s" % (name, run["log"][-800:]), "c17-directed-" + name,
+                              {"family": "frames", "script": read_lines(sc), "witness": name})
+        else:
+            ctx.note("directed witness %s no longer hangs" % name)
 
 
 ALLFAMS = [("frames", 0.4, True), ("sched", 0.3, True), ("faults", 0.3, True)]
@@ -978,3 +1004,110 @@ def check_C20(ctx):
         for k in bad[:1]:
             ctx.add_violation("moving-average samples differ from the model: impl %s / model %s" % (samples_only(impl.get(k, [])), samples_only(model.get(k, []))),
                               "ewma-samples", {"family": "bar", "case": cases[k], "impl": impl.get(k), "model": model.get(k)})
+
+# ---------------------------------------------------------------- C10
+ACTOR_DEPS = {"Base.v", "BaseProofs.v", "BarState.v", "BarStateProofs.v", "Proxy.v", "ProxyProofs.v", "Actor.v", "ActorProofs.v"}
+
+
+def race_reports(log):
+    """split the race detector's output into reports that involve the library"""
+    out = []
+    for blk in log.split("==================\n"):
+        if "WARNING: DATA RACE" in blk and "github.com/vbauerster/mpb/v8" in blk:
+            locs = re.findall(r"/repo/([\w/\.]+:\d+)", blk)
+            funcs = re.findall(r"github.com/vbauerster/mpb/v8[\w/\.]*\.\(?\*?(\w+)\)?\.(\w+)", blk)
+            key = "-".join(sorted({"%s.%s" % f for f in funcs[:1] + funcs[-1:]})) or "unknown"
+            out.append((key, blk[:2500], locs[:4]))
+    return out
+
+
+@check
+def check_C10(ctx):
+    ctx.cov["rule"] = ("case = 2-4 goroutines each running 1-4 (thorough: 1-6) calls on one bar (increments, set/abort/total/refill, getters) "
+                       "in an auto, manual or non-refreshing container that keeps rendering, then quiescent reads, Shutdown, reads; "
+                       "distinct = the per-client programs and configuration; the same family is re-run under the race detector")
+    ctx.assumptions = ["one decorator instance per bar", "a history is at most 60 calls (the linearization search is exhaustive with memoisation)",
+                       "freedom from data races is decided by the Go race detector on the schedules that occurred, not by a theorem"]
+    if not common_setup(ctx, ACTOR_DEPS | {"Props/C10.v"}):
+        return
+    found = False
+    runs = []
+    if ctx.replay:
+        rp = json.load(open(ctx.replay))
+        if "case" in rp:
+            sc = write_script(ctx, "replay.txt", rp["case"])
+            for rep in range(20):
+                runs.append(ctx.run_family("conc", 0, extra=sc, tag=".replay%d" % rep))
+    elif ctx.tier == "quick":
+        runs.append(ctx.run_family("conc", 200))
+    else:
+        for i in range(8):
+            runs.append(ctx.run_family("conc", 1500, seed=ctx.seed * 1000 + i))
+    sigs = set()
+    for run in runs:
+        cases = group_cases(read_lines(os.path.join(run["dir"], "cases.txt")))
+        if run["rc"] != 0:
+            sig = "conc-hang" if "hang" in run["log"] else ("panic" if "panic" in run["log"] else "conc-run-failed")
+            last = cases[max(cases)] if cases else []
+            if sig not in sigs:
+                sigs.add(sig)
+                ctx.add_violation("implementation run failed: " + run["log"][-1500:], sig,
+                                  {"family": "conc", "run_seed": run["seed"], "n": run["n"], "case": [l for l in last if not l.startswith("h ")]})
+            found = True
+        verdict = {}
+        for l in read_lines(os.path.join(run["dir"], "model.txt")):
+            f = l.split(" ", 2)
+            verdict[int(f[0])] = (f[1], f[2] if len(f) > 2 else "")
+        for k in sorted(cases):
+            if k not in verdict:
+                continue
+            ctx.cov["evaluations"] += 1
+            ctx.cov["traces_validated_against_impl"] += 1
+            prog = tuple(l for l in cases[k] if l.startswith("p ") or l.startswith("case"))
+            ctx.distinct((prog[0].split()[2:], prog[1:]).__repr__())
+            if k < 2:
+                ctx.sample({"case": cases[k][:40], "verdict": verdict[k]})
+            if verdict[k][0] != "ACCEPT":
+                sig = "not-linearizable" if "no-linearization" in verdict[k][1] else "conc-" + verdict[k][1].split()[0]
+                if sig not in sigs:
+                    sigs.add(sig)
+                    ctx.add_violation("the recorded concurrent history has no linearization under the sequential rules (%s):\n%s"
+                                      % (verdict[k][1], "\n".join(cases[k][:60])), sig,
+                                      {"family": "conc", "run_seed": run["seed"], "n": run["n"], "k": k,
+                                       "case": [l for l in cases[k] if not l.startswith("h ")], "history": cases[k]})
+                found = True
+    # ---- the race detector
+    if not ctx.replay or True:
+        rb = ctx.build_harness_race()
+        if rb is None:
+            ctx.add_violation("the harness does not build with -race:\n" + ctx.harness_error[-1500:], "harness-race-build",
+                              {"log": ctx.harness_error[-3000:]}, found_input=False)
+        else:
+            plan = [("conc", 150), ("frames", 60), ("sched", 40), ("faults", 40), ("bar", 100), ("proxy", 200)] if ctx.tier == "quick" else \
+                   [("conc", 3000), ("frames", 1500), ("sched", 1000), ("faults", 1000), ("bar", 2000), ("proxy", 4000)]
+            if ctx.replay:
+                rp = json.load(open(ctx.replay))
+                plan = [(rp.get("family", "conc"), rp.get("n", 150))] if "race" in rp.get("signature", "") else []
+            for fam, n in plan:
+                run = ctx.run_family(fam, n, tag=".race", model=False, binary=rb, timeout=3000,
+                                     env={"GORACE": "halt_on_error=0 exitcode=66", "MPBH_HANG_MS": "240000"})
+                ctx.cov["evaluations"] += n
+                ctx.cov["families"].setdefault(fam + "(race)", {"runs": 0, "cases": 0})
+                ctx.cov["families"][fam + "(race)"]["runs"] += 1
+                ctx.cov["families"][fam + "(race)"]["cases"] += n
+                reps = race_reports(run["log"])
+                for key, blk, locs in reps:
+                    sig = "data-race-" + key
+                    if sig not in sigs:
+                        sigs.add(sig)
+                        ctx.add_violation("data race in the library (family %s, seed %d): %s\n%s" % (fam, run["seed"], ", ".join(locs), blk), sig,
+                                          {"family": fam, "run_seed": run["seed"], "n": n, "race": True, "report": blk})
+                    found = True
+                if run["rc"] not in (0, 66) and not reps:
+                    sig = "race-run-failed-" + fam
+                    if sig not in sigs:
+                        sigs.add(sig)
+                        ctx.add_violation("run under the race detector failed (family %s): %s" % (fam, run["log"][-1500:]), sig,
+                                          {"family": fam, "run_seed": run["seed"], "n": n, "race": True})
+                    found = True
+    report_broken_obligations(ctx, found)
